@@ -96,12 +96,13 @@ def match_writers(cx):
 
 def _receiver_id(e):
     """e designates prs[x] -> x"""
-    for p in (call("~Option::unwrap", call("~ProgressTracker::get_mut", ANY, V("id"))),
-              ("vfield", call("~ProgressTracker::get_mut", ANY, V("id")), "core::option::Option::Some", 0),
-              call("~Option::expect", call("~ProgressTracker::get_mut", ANY, V("id")), ANY)):
-        b = match(p, e)
-        if b:
-            return b["id"]
+    for getter in ("~ProgressTracker::get_mut", "~ProgressTracker::get"):
+        for p in (call("~Option::unwrap", call(getter, ANY, V("id"))),
+                  ("vfield", call(getter, ANY, V("id")), "core::option::Option::Some", 0),
+                  call("~Option::expect", call(getter, ANY, V("id")), ANY)):
+            b = match(p, e)
+            if b:
+                return b["id"]
     return None
 
 
@@ -230,17 +231,43 @@ def persist_writers(cx):
             continue
         v = write_value(cx, s)
         gl = cx.guard_lits(s)
-        if v[0] == "param":
+        # `persisted = min(persisted, x)` is the guarded lowering `if x < persisted { persisted = x }`
+        by_min = False
+        from ..idioms import as_min
+        mn = as_min(v)
+        if mn and sum(1 for x in mn if is_f(x, PERSISTED)) == 1:
+            v = [x for x in mn if not is_f(x, PERSISTED)][0]
+            by_min = True
+        if v[0] == "param" and not by_min:
             has_term = any(term_is(cx.prog, l, STORE_TERM_CALL) for l in gl)
             if has_term:
+                def _snapish(x):
+                    return contains(fld("Unstable.snapshot"), x) or contains(fld("Unstable.snapshot"), cx.prog.inline_wrappers(x)) or any(y[0] == "call" and y[1].endswith("::pending_snapshot") for y in walk(x))
+
                 def below_first(l, v=v):
-                    return l[0] == "is" and l[2] is True and l[1][0] == "bin" and l[1][1] == "Lt" and l[1][2] == v and (_first_update_index(l[1][3]) or _first_update_index(cx.prog.inline_wrappers(l[1][3])))
+                    if not (l[0] == "is" and l[2] is True and l[1][0] == "bin" and l[1][1] == "Lt" and l[1][2] == v):
+                        return False
+                    if _first_update_index(l[1][3]) or _first_update_index(cx.prog.inline_wrappers(l[1][3])):
+                        return True
+                    # the two cases tested on separate paths: against the pending snapshot's index where there is one,
+                    # against unstable.offset where there is none (see no_snapshot_or_below below)
+                    x = l[1][3]
+                    return is_f(x, "Unstable.offset") or (is_f(x, "SnapshotMetadata.index") and _snapish(x))
+
+                def no_snapshot_or_below(l, v=v):
+                    if l[0] == "in" and l[2] == frozenset(["None"]) and _snapish(l[1]):
+                        return True
+                    if not (l[0] == "is" and l[2] is True and l[1][0] == "bin" and l[1][1] == "Lt" and l[1][2] == v):
+                        return False
+                    x = l[1][3]
+                    return _first_update_index(x) or _first_update_index(cx.prog.inline_wrappers(x)) or (is_f(x, "SnapshotMetadata.index") and _snapish(x))
                 def term_ok(l, v=v):
                     r = term_is(cx.prog, l, STORE_TERM_CALL)
                     return r is not None and r[1] == v and r[2][0] == "param"
                 ok = require_all(cx, s, key, "RAISE-ENTRIES: persisted := index only if index > persisted, index < first not-yet-written update, store.term(index) == term",
                                  [("index > persisted", lt_true(isf(PERSISTED), eq(v))),
                                   ("index < (unstable snapshot index | unstable.offset)", below_first),
+                                  ("index < unstable.offset suffices only where no snapshot is pending", no_snapshot_or_below),
                                   ("store.term(index) == term", term_ok)], detail={"value": show(v)})
                 if ok:
                     kinds.add("RAISE-ENTRIES")
@@ -252,11 +279,19 @@ def persist_writers(cx):
                 if ok:
                     kinds.add("RAISE-SNAP")
         elif match(("bin", "Sub", call("~RaftLog::find_conflict", ANY, ANY), ("int", 1)), v):
-            ok = require(cx, s, key, "LOWER-CONFLICT: persisted := conflict - 1 only if persisted > conflict - 1", lt_true(eq(v), isf(PERSISTED)), kill=False, detail={"value": show(v)})
+            if by_min:
+                cx.ok(key, "LOWER-CONFLICT: persisted := min(persisted, conflict - 1)", s, value=show(v))
+                ok = True
+            else:
+                ok = require(cx, s, key, "LOWER-CONFLICT: persisted := conflict - 1 only if persisted > conflict - 1", lt_true(eq(v), isf(PERSISTED)), kill=False, detail={"value": show(v)})
             if ok:
                 kinds.add("LOWER-CONFLICT")
         elif is_f(v, "RaftLog.committed"):
-            ok = require(cx, s, key, "LOWER-RESTORE: persisted := committed only if persisted > committed", lt_true(isf("RaftLog.committed"), isf(PERSISTED)), detail={"value": show(v)})
+            if by_min:
+                cx.ok(key, "LOWER-RESTORE: persisted := min(persisted, committed)", s, value=show(v))
+                ok = True
+            else:
+                ok = require(cx, s, key, "LOWER-RESTORE: persisted := committed only if persisted > committed", lt_true(isf("RaftLog.committed"), isf(PERSISTED)), detail={"value": show(v)})
             if ok:
                 kinds.add("LOWER-RESTORE")
         else:
